@@ -296,6 +296,9 @@ fn run_program<T: Payload>(p: &Program, seed: u64, long: bool, closer_delay_us: 
     match stuck::join_all(handles, grace, cap_wall) {
         Ok(logs) => {
             fp::set_random_delays(0, 0, 1);
+            // every handle is gone: the drop probe (if any) is the last owner of the channel; letting it go frees
+            // the channel and destroys what is still buffered, before the ledger is read
+            payload::set_drop_probe(None);
             let sig = fp::trace_signature();
             let mut events: Vec<Event> = logs.into_iter().flatten().collect();
             if T::TRACKED {
@@ -415,6 +418,7 @@ fn main() {
     let caps: Vec<Option<usize>> = caps_arg.split(',').map(parse_cap).collect();
     let miri = cfg!(miri);
     payload::init(if cfg!(miri) { 1 << 10 } else if mode != "short" { 1 << 22 } else { 1 << 11 });
+    payload::want_drop_probe(kverif::arg_u64(&a, "drop-probe", 0) != 0);
     fp::install();
     #[cfg(feature = "tsan")]
     kverif::tsan::install();
@@ -563,6 +567,7 @@ fn main() {
     let hits = fp::hits_delta(&hits0);
     let mut out = J::obj();
     out.set("engine", J::s("hist"));
+    out.set("drop_probe_calls", J::U(payload::PROBE_CALLS.load(std::sync::atomic::Ordering::Relaxed)));
     out.set("mode", J::s(mode.clone()));
     out.set("seed", J::U(seed));
     out.set("programs", J::U(programs_run));
